@@ -33,6 +33,8 @@ class LoopSpec:
     invariants: list[Clause]
     variant: str | None = None
     ghost_update: dict[str, str] = field(default_factory=dict)
+    exit_hints: list[Clause] = field(default_factory=list)  # proved, then assumed, on the loop-exit branch
+    body_hints: list[Clause] = field(default_factory=list)  # proved, then assumed, on entry of the body
 
 
 @dataclass
@@ -127,7 +129,8 @@ class Registry:
             if isinstance(v, LoopSpec):
                 lp[k] = v
             elif isinstance(v, dict):
-                lp[k] = LoopSpec(_clauses(v.get("inv"), dt), v.get("variant"), dict(v.get("ghost_update", {})))
+                lp[k] = LoopSpec(_clauses(v.get("inv"), dt), v.get("variant"), dict(v.get("ghost_update", {})),
+                                 _clauses(v.get("exit_hints"), dt), _clauses(v.get("body_hints"), dt))
             else:
                 lp[k] = LoopSpec(_clauses(v, dt))
         yi: dict[int, list[Clause]] = {}
